@@ -809,6 +809,12 @@ def _multi_sum(vars_, mono):
         for v, b, n in reversed(keep):
             t = close_raw("sum", v, b, t) if n in t.syms or True else t * b
         return factor * t
+    # (b') Σ_{b<B} size(b) = total length of the partitioned axis
+    if len(keep) == 1 and len(inner) == 1 and inner[0][1] == 1 and inner[0][0].kind == "app" \
+            and str(inner[0][0].args[0]).startswith("csz:"):
+        tag = inner[0][0].args[0][4:]
+        if tag in PARTITIONS and symname(inner[0][0].args[1]) == keep[0][2] and equal(keep[0][1], PARTITIONS[tag][0]):
+            return factor * PARTITIONS[tag][1]
     # (c) Kronecker delta
     for a, p in inner:
         if a.kind == "ind":
